@@ -418,6 +418,67 @@ mut('C04', 'zincdumper', "    header = 'ver:%s' % dump_str(str(grid._version), v
 mut('C04', 'zincdumper', "    return 'C(%f,%f)' % (coordinate.latitude, coordinate.longitude)", "    return 'C(%s,%s)' % (coordinate.latitude, coordinate.longitude)", name='coordinate via str (exponent forms)')
 mut('C04', 'zincdumper', "    uri_value = CTRL_META.sub(ctrl_sub, uri_value)", "    for orig, esc in STR_SUB:\n        uri_value = uri_value.replace(orig, esc)\n    uri_value = CTRL_META.sub(ctrl_sub, uri_value)", name='URI with \\n escapes (not in the grammar)')
 
+# ---- C02 -----------------------------------------------------------------------------
+mut('C02', 'jsondumper', "    return u's:%s' % str_value", "    return u'%s' % str_value", name='strings without s: prefix')
+mut('C02', 'jsonparser', "REF_RE = re.compile(r'^r:([a-zA-Z0-9_:\\-.~]+)(:? (.*))?$',\n                    flags=re.DOTALL)", "REF_RE = re.compile(r'^r:([a-zA-Z0-9_:\\-.~]+)(:? (.*))?$',\n                    flags=re.MULTILINE)", name='revert fix: REF_RE flags')
+mut('C02', 'jsonparser', "URI_RE = re.compile(r'u:(.*)$', flags=re.DOTALL)", "URI_RE = re.compile(r'u:(.+)$', flags=re.DOTALL)", name='revert fix: empty URI')
+mut('C02', 'jsonparser', "        return XStr(*scalar[2:].split(':', 1))", "        return XStr(*scalar[2:].split(':'))", name='revert fix: XStr split')
+mut('C02', 'jsonparser', "REF_RE = re.compile(r'^r:([a-zA-Z0-9_:\\-.~]+)(:? (.*))?$',", "REF_RE = re.compile(r'^r:([a-zA-Z0-9_:\\-.~ ]+)(:? (.*))?$',", name='ref name class gains blank (split moves)')
+mut('C02', 'jsonparser', "    if scalar.startswith('s:'):\n        return scalar[2:]", "    if scalar.startswith('s:'):\n        return scalar[3:]", name='s: payload sliced at 3')
+mut('C02', 'jsonparser', """    # Is it a string?
+    if scalar.startswith('s:'):
+        return scalar[2:]
+
+    # Is it a xstr?""", """    # Is it a xstr?""", name='s: branch deleted')
+mut('C02', 'jsonparser', """    # Is it a number?
+    match = NUMBER_RE.match(scalar)""", """    # Is it a string?
+    if scalar.startswith('s:'):
+        return scalar[2:]
+    # Is it a number?
+    match = NUMBER_RE.match(scalar)""", 'OK', name='s: test moved before numbers (harmless)')
+mut('C02', 'jsondumper', "        return 'n:%f %s' % (quantity.value, quantity.unit)", "        return 'n:%f%s' % (quantity.value, quantity.unit)", name='quantity without blank before unit')
+mut('C02', 'jsondumper', "    return 'c:%f,%f' % (coordinate.latitude, coordinate.longitude)", "    return 'c:%f %f' % (coordinate.latitude, coordinate.longitude)")
+mut('C02', 'jsondumper', "    return 'h:%s' % time.isoformat()", "    return 'h:%s' % time.strftime('%H:%M')", name='time without seconds (lossy)')
+mut('C02', 'jsondumper', "    return 'd:%s' % date.isoformat()", "    return 'd:%s' % date.strftime('%Y%m%d')", name='date compact form')
+mut('C02', 'jsondumper', """        if Version.nearest(version) < VER_3_0:
+            return REMOVE2_STR
+        else:
+            return REMOVE3_STR""", """        if Version.nearest(version) < VER_3_0:
+            return REMOVE3_STR
+        else:
+            return REMOVE2_STR""", name='Remove spellings swapped')
+mut('C02', 'jsonparser', "REMOVE3_STR = '-:'", "REMOVE3_STR = 'r:'", name='3.0 Remove spelled r:')
+mut('C02', 'jsonparser', "DATE_RE = re.compile(r'^d:(\\d{4})-(\\d{2})-(\\d{2})$', flags=re.MULTILINE)", "DATE_RE = re.compile(r'^d:(\\d{4})-(\\d{2})$', flags=re.MULTILINE)")
+mut('C02', 'jsonparser', "(:? ([A-Za-z\\-+_0-9]+))?$',", "(:? ([A-Za-z_0-9]+))?$',", name='zone names without - and +')
+mut('C02', 'jsonparser', "        grid.column[name] = meta", "        grid.column[name] = {}", name='column metadata dropped')
+mut('C02', 'jsonparser', "    metadata = {}\n    for name, value in meta.items():\n        metadata[name] = parse_embedded_scalar(value, version=version)", "    metadata = {}\n    for name, value in sorted(meta.items()):\n        metadata[name] = parse_embedded_scalar(value, version=version)", name='metadata decoded in sorted order')
+mut('C02', 'jsondumper', "        _meta['ver'] = str(version)", "        _meta['version'] = str(version)")
+mut('C02', 'jsondumper', "    elif isinstance(scalar, bool):\n        return dump_bool(scalar, version=version)\n", "", name='bool branch deleted (falls to number)')
+mut('C02', 'jsonparser', "    elif isinstance(scalar, bool):\n        return scalar\n", "", name='reader bool branch deleted')
+
+# ---- C05 / C06 / C08.D2 --------------------------------------------------------------
+mut('C05', 'jsonparser', "        parsed = copy.deepcopy(grid_str)", "        parsed = grid_str", name='input no longer deep-copied')
+mut('C05', 'jsonparser', "        parsed = copy.deepcopy(grid_str)", "        parsed = dict(grid_str)", name='shallow copy only (cols/meta still shared)')
+mut('C05', 'jsonparser', "NUMBER_RE = re.compile(r'^n:(-?\\d+(:?\\.\\d+)?(:?[eE][+\\-]?\\d+)?)(:? (.*))?$',", "NUMBER_RE = re.compile(r'^n:(-?\\d+(:?\\.\\d+)?)(:? (.*))?$',", name='NUMBER_RE loses exponent')
+mut('C05', 'jsonparser', "TIME_RE = re.compile(r'^h:(\\d{2}):(\\d{2})(:?:(\\d{2}(:?\\.\\d+)?))?$',", "TIME_RE = re.compile(r'^h:(\\d{2}):(\\d{2})(:?:(\\d{2}(:?\\.\\d+)?))$',", name='TIME_RE requires seconds')
+mut('C05', 'jsonparser', "    elif (scalar == REMOVE2_STR) or (scalar == REMOVE3_STR):", "    elif (scalar == REMOVE3_STR):", name='2.0 Remove spelling no longer read (becomes XStr / error)')
+mut('C05', 'jsonparser', "    elif scalar == 'n:-INF':\n        return -float('INF')\n", "", name='n:-INF branch deleted')
+mut('C05', 'jsonparser', "    for row in (parsed.pop('rows', []) or []):", "    for row in parsed.pop('rows'):", name='rows required')
+mut('C05', 'jsonparser', """    elif isinstance(scalar, float) or isinstance(scalar, six.integer_types):
+        return scalar
+""", "", name='raw JSON numbers reach the regexes')
+mut('C05', 'jsonparser', "(:? ([A-Za-z\\-+_0-9]+))?$',", "(:? ([A-Za-z\\-+_0-9]+))$',", name='zone name mandatory')
+mut('C05', 'jsonparser', "    if scalar.startswith('s:'):\n        return scalar[2:]\n", "    if scalar.startswith('s:'):\n        return scalar[2:].strip()\n", name='payload post-processed (strip)')
+mut('C05', 'jsonparser', "        name = col.pop('name')", "        name = col['name']", 'OK', name='(benign) name read without pop: name lands in column meta')
+mut('C06', 'jsondumper', "    return u'b:%s' % bin_value", "    return u'bin:%s' % bin_value")
+mut('C06', 'jsondumper', "    return 'c:%f,%f' % (coordinate.latitude, coordinate.longitude)", "    return 'c:%s,%s' % (coordinate.latitude, coordinate.longitude)", name='coordinate via str (exponent forms)')
+mut('C06', 'jsondumper', "            return 'n:INF'", "            return 'n:Infinity'")
+mut('C06', 'jsondumper', "    return json.dumps(_dump_grid_to_json(grid))", "    return str(_dump_grid_to_json(grid)).replace(\"'\", '\"')", name='hand-made JSON text')
+mut('C06', 'jsondumper', "        'rows': dump_rows(grid),\n", "        'rows': dump_rows(grid),\n        'count': len(grid),\n", name='extra top-level key')
+mut('C06', 'jsondumper', "        return u'r:%s %s' % (ref.name, ref.value)", "        return u'r:%s:%s' % (ref.name, ref.value)", name='ref display after colon')
+mut('C06', 'jsondumper', "    return 't:%s %s' % (date_time.isoformat(), tz_name)", "    return 't:%s' % date_time.isoformat()", 'OK', name='zone name omitted (still well-formed)')
+mut('C08', 'jsondumper', "    return u'x:%s:%s' % (xstr_value.encoding, xstr_value.data_to_string())", "    return u'x:%s %s' % (xstr_value.encoding, xstr_value.data_to_string())", name='xstr with blank separator')
+
 
 def run(selected):
     base_cache = {}
